@@ -1046,6 +1046,18 @@ func (fr *Frame) loopModifies(h *ssa.BasicBlock) []string {
 				}
 			case ssa.CallInstruction:
 				cm, ok := fr.callModifies(ins)
+				if fr.spec != nil {
+					for _, at := range fr.spec.Ats {
+						if at.Ghost != nil && !strings.HasPrefix(at.Callee, "send:") && !strings.HasPrefix(at.Callee, "mapupdate:") {
+							for _, g := range vc.db.Ghosts {
+								if g.Name == at.Ghost.Name {
+									vc.comp(g.Name, g.Sort)
+									set[g.Name] = true
+								}
+							}
+						}
+					}
+				}
 				if !ok {
 					all = true
 				}
